@@ -285,6 +285,89 @@ def effect_of(full: str, call: ast.Call) -> Optional[tuple[str, str]]:
 
 
 # --------------------------------------------------------------------------- T2 content-triggered exceptions
+def _length_guard_admits_short(sub: ast.Subscript) -> Optional[str]:
+    """`X[k]` (k a constant) on a path whose conditions talk about len(X) / the truthiness of X without implying that X is
+    long enough: `X if len(X) > 1 else X[0]` also takes the else arm for the EMPTY sequence.  Returns the condition text,
+    or None when the path implies enough elements or says nothing about the length (then nothing is claimed)."""
+    if not (isinstance(sub.value, ast.Name) and isinstance(sub.slice, ast.Constant) and isinstance(sub.slice.value, int)
+            and not isinstance(sub.slice.value, bool) and isinstance(sub.ctx, ast.Load)):
+        return None
+    x = sub.value.id
+    k = sub.slice.value
+    need = k + 1 if k >= 0 else -k
+    lo, hi = 0, None
+    spoke = []
+
+    def constrain(test: ast.AST, truth: bool) -> None:
+        nonlocal lo, hi
+        if isinstance(test, ast.UnaryOp) and isinstance(test.op, ast.Not):
+            constrain(test.operand, not truth)
+            return
+        if isinstance(test, ast.BoolOp):
+            if isinstance(test.op, ast.And) and truth or isinstance(test.op, ast.Or) and not truth:
+                for v in test.values:
+                    constrain(v, truth)
+            return
+        if isinstance(test, ast.Name) and test.id == x:
+            spoke.append(ast.unparse(test))
+            if truth:
+                lo = max(lo, 1)
+            else:
+                hi = 0
+            return
+        if isinstance(test, ast.Compare) and len(test.ops) == 1 and ast.unparse(test.left) == f"len({x})" \
+                and isinstance(test.comparators[0], ast.Constant) and isinstance(test.comparators[0].value, int):
+            c = test.comparators[0].value
+            op = type(test.ops[0])
+            if not truth:
+                op = {ast.Gt: ast.LtE, ast.GtE: ast.Lt, ast.Lt: ast.GtE, ast.LtE: ast.Gt, ast.Eq: ast.NotEq, ast.NotEq: ast.Eq}.get(op)
+            spoke.append(ast.unparse(test))
+            if op is ast.Gt:
+                lo = max(lo, c + 1)
+            elif op is ast.GtE:
+                lo = max(lo, c)
+            elif op is ast.Eq:
+                lo = max(lo, c)
+                hi = c if hi is None else min(hi, c)
+            elif op is ast.Lt:
+                hi = c - 1 if hi is None else min(hi, c - 1)
+            elif op is ast.LtE:
+                hi = c if hi is None else min(hi, c)
+            elif op is ast.NotEq and c == 0:
+                lo = max(lo, 1)
+
+    cur = sub
+    par = parent_of(cur)
+    while par is not None and not isinstance(par, (ast.FunctionDef, ast.AsyncFunctionDef, ast.Lambda)):
+        if isinstance(par, ast.IfExp):
+            if cur is par.body:
+                constrain(par.test, True)
+            elif cur is par.orelse:
+                constrain(par.test, False)
+        elif isinstance(par, ast.If):
+            if any(cur is st for st in par.body):
+                constrain(par.test, True)
+            elif any(cur is st for st in par.orelse):
+                constrain(par.test, False)
+        elif isinstance(par, ast.BoolOp) and isinstance(par.op, ast.And):
+            for v in par.values:
+                if v is cur:
+                    break
+                constrain(v, True)
+        cur = par
+        par = parent_of(cur)
+    # early exits in front of the statement (`if not X: return ...`)
+    if isinstance(par, (ast.FunctionDef, ast.AsyncFunctionDef)):
+        for st in par.body:
+            if st is cur:
+                break
+            if isinstance(st, ast.If) and not st.orelse and st.body and isinstance(st.body[-1], (ast.Return, ast.Raise, ast.Continue)):
+                constrain(st.test, False)
+    if spoke and lo < need:
+        return " / ".join(spoke)
+    return None
+
+
 def _split_index_guarded(sub: ast.Subscript) -> bool:
     """`X.split(SEP, k)[1]` under a test `SEP in X` - in an enclosing `if`, or in the `if` of the comprehension that
     contains it - always has a second piece."""
@@ -482,6 +565,12 @@ class Escape:
                         continue
                     origin = f"{q} | lib | {ast.unparse(n)[:90]}"
                     out.setdefault(("builtins.IndexError", origin), ("lib", "subscript", self.repo.loc(n), ast.unparse(n)[:80]))
+                # T2: a constant index under a length test that also lets the EMPTY (too short) sequence through
+                if isinstance(n, ast.Subscript):
+                    why = _length_guard_admits_short(n)
+                    if why:
+                        origin = f"{q} | lib | {ast.unparse(n)[:60]} under `{why[:60]}`"
+                        out.setdefault(("builtins.IndexError", origin), ("lib", "subscript", self.repo.loc(n), ast.unparse(n)[:80]))
                 for tgt in edges_by_node.get(id(n), []):
                     if tgt == q:
                         continue
